@@ -76,7 +76,7 @@ class Check(common.Check):
         'nested_not_before_parent', 'nested_relative_same_instant', 'rt_bundle_layout', 'nrt_immediately',
         'nrt_time_is_logical_plus_latency', 'nrt_stamp_of_time', 'reachable_ok', 'score_sorted',
         'score_sorted_stable', 'score_entries_exact', 'entry_timetag',
-        'score_closes_with_tail_and_raw_is_concat', 'score_closes_with_tail')]
+        'score_closes_with_tail_and_raw_is_concat', 'score_closes_with_tail', 'duration_is_latest_time')]
     N_QUICK = 250
     N_THOROUGH = 5000
     ASSUMPTIONS = ['times are dyadic rationals (exact in binary64): non-dyadic times differ by float rounding in the '
@@ -279,7 +279,8 @@ class Check(common.Check):
         if 'exc' in n:
             v['nrt'] = 'exc ' + n['exc']
         else:
-            v['nrt'] = ' '.join([f'L{len(n["list"])}'] + [tok_score_bundle(b) for b in n['list']]) + ' | ' + n['raw']
+            v['nrt'] = (' '.join([f'L{len(n["list"])}'] + [tok_score_bundle(b) for b in n['list']]) + ' | ' + n['raw']
+                        + ' | ' + n['duration'])
         return v
 
     def run(self):                      # the model needs the run's parameters: cache impl outputs
@@ -466,6 +467,9 @@ class Check(common.Check):
                 return {'what': f'score entry {i} is {str(g)[:300]}, expected time {fr(e[0])} and content '
                                 f'{str(e[1:])[:300]} (bundles at logical time + latency, ordered by time then send order)',
                         'signature': 'c07:score-entry'}
+        if F(nrt['duration']) != expected[-1][0]:
+            return {'what': f'score.duration is {nrt["duration"]} but the latest bundle is at {fr(expected[-1][0])} s',
+                    'signature': 'c07:duration'}
         # raw = concatenation of the length-prefixed encodings of the listed bundles, in order
         raw, i = bytes.fromhex(nrt['raw']), 0
         for k, e in enumerate(expected):
